@@ -6,6 +6,7 @@
    Part 3: witnesses: non-vacuity of the side conditions, and, for each exclusion, a URL of the excluded class on
            which the conclusion fails (the known findings kf_* of corpus/C09). *)
 Require Import RIO.Base RIO.Pct RIO.Url RIO.C09Run RIO.PctProofs RIO.UrlProofs.
+Require Import RIO.TablesTie RIOGen.ExtTables.
 Open Scope N_scope.
 
 (* default utm set *)
@@ -287,6 +288,28 @@ Lemma C09_differs_refuted_encoded_percent : exists (cfg : config) (u u' : str),
                          (rebuild_with_config cfg (request_from_config cfg u' None)) = true.
 Proof. exists cfg_plain, [47;112;63;97;61;37;50;53;50;48], [47;112;63;97;61;37;50;48]. repeat split; vm_compute; reflexivity. Qed.
 
+
+(* ---- TIE TO THE SOURCE (translator): the six AsciiSet constants, the call sites of utf8_percent_encode and the default
+   marketing set are lifted from src/api/rule.rs, src/http/query.rs, src/http/request.rs and src/router_config.rs on every
+   run (RIOGen.ExtTables); the sets of the model encode every byte string exactly as the sets the source defines now,
+   each call site uses the set the model uses there, and the default marketing set is the one the generators use. *)
+Theorem C09_tables_encode_sets : forall input : str,
+  utf8_percent_encode input (set_of_adds ext_rule_SIMPLE_ENCODE_SET_adds) = utf8_percent_encode input rule_SIMPLE_ENCODE_SET
+  /\ utf8_percent_encode input (set_of_adds ext_rule_URL_ENCODE_SET_adds) = utf8_percent_encode input rule_URL_ENCODE_SET
+  /\ utf8_percent_encode input (set_of_adds ext_rule_QUERY_ENCODE_SET_adds) = utf8_percent_encode input rule_QUERY_ENCODE_SET
+  /\ utf8_percent_encode input (set_of_adds ext_query_URL_ENCODE_SET_adds) = utf8_percent_encode input query_URL_ENCODE_SET
+  /\ utf8_percent_encode input (set_of_adds ext_query_QUERY_ENCODE_SET_adds) = utf8_percent_encode input query_QUERY_ENCODE_SET
+  /\ utf8_percent_encode input (set_of_adds ext_request_QUERY_ENCODE_SET_adds) = utf8_percent_encode input request_QUERY_ENCODE_SET.
+Proof.
+  intros input. repeat split; apply sets_agree_encode; vm_compute; reflexivity.
+Qed.
+
+Theorem C09_tables_encode_uses : ext_encode_uses = model_encode_uses.
+Proof. vm_compute. reflexivity. Qed.
+
+Theorem C09_tables_default_marketing : forall x, mem_str x ext_default_marketing = mem_str x utm.
+Proof. apply same_names_mem. vm_compute. reflexivity. Qed.
+
 Print Assumptions C09_rebuild_idempotent.
 Print Assumptions C09_rebuild_keeps_request.
 Print Assumptions C09_encode_sets_agree.
@@ -306,3 +329,6 @@ Print Assumptions C09_param_order_refuted_repeated_key.
 Print Assumptions C09_case_refuted_sort_order.
 Print Assumptions C09_case_refuted_marketing_key.
 Print Assumptions C09_differs_refuted_encoded_amp.
+Print Assumptions C09_tables_encode_sets.
+Print Assumptions C09_tables_encode_uses.
+Print Assumptions C09_tables_default_marketing.
